@@ -8,6 +8,9 @@ pub proof fn lemma_wait_fact_stable(id: PartId, r: crate::rpc::WaitRes, a: Node,
 //@ returns r
 //@ ghostparam Tracked(n): Tracked<&mut Node>
 //@ implicit [C06,C15]
+//@ bind tasks /let mut (\w+) = FuturesUnordered::new\(\);/
+//@ bind res /while let Some\((\w+)\) = \w+\.next\(\)/
+//@ bind pending /for \w+ in (\w+)\.payments/
 //@ requires#wf
       node_wf(*old(n)) && payment_hash == old(n).hash
 //@ ensures#rely
@@ -22,15 +25,15 @@ pub proof fn lemma_wait_fact_stable(id: PartId, r: crate::rpc::WaitRes, a: Node,
 //@ creturns o: Option<Secret>
 //@ ensures#projects_the_preimage [C15]
       o == p.payment_preimage
-//@ ghost before_stmt /^let mut tasks = FuturesUnordered::new\(\);/
-      let ghost PL = pending_payments.payments.v@; let ghost n0 = *n;
+//@ ghost before_stmt /^let mut $tasks = FuturesUnordered::new\(\);/
+      let ghost PL = $pending.payments.v@; let ghost n0 = *n;
 //@ loop 0
 //@ iter it
 //@ invariant#for_loop
       vstd::std_specs::iter::IteratorSpec::remaining(&it.snapshot@) == PL
       && node_wf(*n) && node_rely(n0, *n) && node_rely(*old(n), *n) && n.hash == payment_hash
-      && tasks.view().len() == it.index@
-      && (forall|j: int| 0 <= j < tasks.view().len() ==> (#[trigger] tasks.view()[j]).0 == part_id(PL[j]) && crate::rpc::wait_fact(tasks.view()[j].0, tasks.view()[j].1, *n))
+      && $tasks.view().len() == it.index@
+      && (forall|j: int| 0 <= j < $tasks.view().len() ==> (#[trigger] $tasks.view()[j]).0 == part_id(PL[j]) && crate::rpc::wait_fact($tasks.view()[j].0, $tasks.view()[j].1, *n))
 //@ invariant#every_pending_part_is_in_the_pending_listing [C15]
       forall|id: PartId| #![trigger n.pending.contains(id)] n.pending.contains(id) ==> listed(PL, id)
 //@ invariant#no_part_completed_unseen_between_the_two_listings [C15,C02,C05,C08,C16,C03]
@@ -38,45 +41,45 @@ pub proof fn lemma_wait_fact_stable(id: PartId, r: crate::rpc::WaitRes, a: Node,
 //    or it was still pending when the pending-listing was taken
       forall|id: PartId| #![trigger n.completed.contains_key(id)] n.completed.contains_key(id) ==> listed(PL, id)
 //@ ghost loop_begin 0
-      let ghost nb = *n; let ghost tb = tasks.view();
+      let ghost nb = *n; let ghost tb = $tasks.view();
 //@ proof loop_end 0
       assert forall|j: int| 0 <= j < tb.len() implies crate::rpc::wait_fact(tb[j].0, tb[j].1, *n) by {
           lemma_wait_fact_stable(tb[j].0, tb[j].1, nb, *n);
       }
-//@ ghost before_stmt /^while let Some\(res\) = tasks\.next\(\)/
-      let ghost mut tg = tasks.view();
+//@ ghost before_stmt /^while let Some\($res\) = $tasks\.next\(\)/
+      let ghost mut tg = $tasks.view();
       proof {
           assert forall|i: int| 0 <= i < PL.len() implies (gone(part_id(#[trigger] PL[i]), *n)
-                  || exists|j: int| 0 <= j < tasks.view().len() && (#[trigger] tasks.view()[j]).0 == part_id(PL[i])) by {
-              assert(tasks.view()[i].0 == part_id(PL[i]));
+                  || exists|j: int| 0 <= j < $tasks.view().len() && (#[trigger] $tasks.view()[j]).0 == part_id(PL[i])) by {
+              assert($tasks.view()[i].0 == part_id(PL[i]));
           }
       }
 //@ loop 1
 //@ invariant#while_loop [C15,C02,C05,C08,C16,C03]
-      node_wf(*n) && tg == tasks.view() && node_rely(*old(n), *n)
-      && (forall|j: int| 0 <= j < tasks.view().len() ==> crate::rpc::wait_fact((#[trigger] tasks.view()[j]).0, tasks.view()[j].1, *n))
+      node_wf(*n) && tg == $tasks.view() && node_rely(*old(n), *n)
+      && (forall|j: int| 0 <= j < $tasks.view().len() ==> crate::rpc::wait_fact((#[trigger] $tasks.view()[j]).0, $tasks.view()[j].1, *n))
       && (forall|i: int| 0 <= i < PL.len() ==> (gone(part_id(#[trigger] PL[i]), *n)
-              || exists|j: int| 0 <= j < tasks.view().len() && (#[trigger] tasks.view()[j]).0 == part_id(PL[i])))
+              || exists|j: int| 0 <= j < $tasks.view().len() && (#[trigger] $tasks.view()[j]).0 == part_id(PL[i])))
       && (forall|id: PartId| #![trigger n.pending.contains(id)] n.pending.contains(id) ==> listed(PL, id))
       && (forall|id: PartId| #![trigger n.completed.contains_key(id)] n.completed.contains_key(id) ==> listed(PL, id))
 //@ ensures#all_results_consumed [C15,C02,C05,C08,C16,C03]
-      tasks.view().len() == 0
+      $tasks.view().len() == 0
 //@ decreases
-      tasks.view().len()
+      $tasks.view().len()
 //@ ghost loop_begin 1
-      let ghost k = choose|k: int| 0 <= k < tg.len() && tg[k].1 == res && tasks.view() == tg.remove(k);
-      proof { assert(crate::rpc::wait_fact(tg[k].0, res, *n)); }
+      let ghost k = choose|k: int| 0 <= k < tg.len() && tg[k].1 == $res && $tasks.view() == tg.remove(k);
+      proof { assert(crate::rpc::wait_fact(tg[k].0, $res, *n)); }
 //@ proof loop_end 1
       assert(gone(tg[k].0, *n));
       assert forall|i: int| 0 <= i < PL.len() implies (gone(part_id(#[trigger] PL[i]), *n)
-              || exists|j: int| 0 <= j < tasks.view().len() && (#[trigger] tasks.view()[j]).0 == part_id(PL[i])) by {
+              || exists|j: int| 0 <= j < $tasks.view().len() && (#[trigger] $tasks.view()[j]).0 == part_id(PL[i])) by {
           if !gone(part_id(PL[i]), *n) {
               let j0 = choose|j: int| 0 <= j < tg.len() && (#[trigger] tg[j]).0 == part_id(PL[i]);
-              if j0 < k { assert(tasks.view()[j0] == tg[j0]); }
-              else if j0 > k { assert(tasks.view()[j0 - 1] == tg[j0]); }
+              if j0 < k { assert($tasks.view()[j0] == tg[j0]); }
+              else if j0 > k { assert($tasks.view()[j0 - 1] == tg[j0]); }
           }
       }
-      tg = tasks.view();
+      tg = $tasks.view();
 //@ proof before_stmt /^Ok\(None\)$/
       assert forall|id: PartId| !n.pending.contains(id) && !n.completed.contains_key(id) by {
           if n.pending.contains(id) || n.completed.contains_key(id) {
